@@ -82,15 +82,16 @@ func (g *Graph) AddStatement(s *Statement) {
 		panic(fmt.Errorf("rdf: object is not a valid term: %s", s.Object.Value))
 	}
 
+	g.addTerm(&s.Subject)
+	g.addTerm(&s.Predicate)
+	g.addTerm(&s.Object)
+	// The predicate's UID is only known once its term has been added.
 	statements, ok := g.pred[s.Predicate.UID]
 	if !ok {
 		statements = make(map[*Statement]bool)
 		g.pred[s.Predicate.UID] = statements
 	}
 	statements[s] = true
-	g.addTerm(&s.Subject)
-	g.addTerm(&s.Predicate)
-	g.addTerm(&s.Object)
 	g.setLine(s)
 }
 
